@@ -17,6 +17,7 @@ import (
 	"strconv"
 	"strings"
 	"sync"
+	"unicode"
 	"unicode/utf8"
 
 	"github.com/ichiban/prolog"
@@ -113,6 +114,58 @@ func genC06Text(r *rand.Rand) string {
 	}
 }
 
+// c06Boundaries: the first and last code point of every range (and the neighbours just outside) of every character
+// class the lexer distinguishes or could be confused with, computed from the tables of Go's package unicode (the
+// same tables the real lexer consults; the Lean side has them as an oracle parameter, regenerated into
+// Generated/Unicode.lean, so these cases are what ties the two): Ll|Lo|Lm (small letter), each of Ll, Lo, Lm
+// (unicode.IsLower is Ll-like: a writer deciding with it disagrees with the lexer exactly on Lo and Lm), IsUpper,
+// Lt, Nd, Nl, Mn, IsSpace, the two maths-operator blocks, the surrogate gap.
+var c06BoundaryCache []rune
+
+func c06Boundaries() []rune {
+	if c06BoundaryCache != nil {
+		return c06BoundaryCache
+	}
+	preds := []func(rune) bool{
+		func(r rune) bool { return unicode.In(r, unicode.Ll, unicode.Lo, unicode.Lm) },
+		func(r rune) bool { return unicode.Is(unicode.Ll, r) },
+		func(r rune) bool { return unicode.Is(unicode.Lo, r) },
+		func(r rune) bool { return unicode.Is(unicode.Lm, r) },
+		unicode.IsUpper, unicode.IsLower, unicode.IsSpace,
+		func(r rune) bool { return unicode.Is(unicode.Lt, r) },
+		func(r rune) bool { return unicode.Is(unicode.Nd, r) },
+		func(r rune) bool { return unicode.Is(unicode.Nl, r) },
+		func(r rune) bool { return unicode.Is(unicode.Mn, r) },
+		func(r rune) bool { return (r >= 0x2200 && r <= 0x22FF) || (r >= 0x2A00 && r <= 0x2AFF) },
+	}
+	set := map[rune]bool{0xD7FF: true, 0xE000: true, unicode.MaxRune: true}
+	for _, p := range preds {
+		prev := false
+		for r := rune(0); r <= unicode.MaxRune; r++ {
+			if r >= 0xD800 && r <= 0xDFFF {
+				continue
+			}
+			c := p(r)
+			if c != prev {
+				if r > 0 && !(r-1 >= 0xD800 && r-1 <= 0xDFFF) {
+					set[r-1] = true
+				}
+				set[r] = true
+			}
+			prev = c
+		}
+	}
+	for r := range set {
+		c06BoundaryCache = append(c06BoundaryCache, r)
+	}
+	sort.Slice(c06BoundaryCache, func(i, j int) bool { return c06BoundaryCache[i] < c06BoundaryCache[j] })
+	return c06BoundaryCache
+}
+
+// names whose first character belongs to a class where a writer and the lexer could disagree
+var c06ClassNames = []string{"日本", "本", "א", "ב", "ب", "は", "ʰ", "ːa", "ªb", "é1", "λx", "ß", "É", "Σx", "ǅ", "ǅa", "٣", "３", "３x", "ⅰ", "Ⅰ", "e\u0301", "a\u0301b",
+	"∀", "∀x", "€", "±", "_日", "x日", "日x1", "日_1", "日A", "a日", "ʰʰ", "1日", "日本語"}
+
 // exhaustive small scopes shared by c06.lex and c06.atoms
 func c06Exhaustive(tier string) []string {
 	var out []string
@@ -123,10 +176,15 @@ func c06Exhaustive(tier string) []string {
 	for _, c := range c06ClassChars {
 		out = append(out, string(c))
 	}
+	out = append(out, c06ClassNames...)
 	for _, a := range c06PairChars {
 		for _, b := range c06PairChars {
 			out = append(out, string(a)+string(b))
 		}
+	}
+	// every class boundary of the unicode tables: alone, continuing a name / a variable, starting a name
+	for _, c := range c06Boundaries() {
+		out = append(out, string(c), "a"+string(c), "_"+string(c), string(c)+"a")
 	}
 	if tier == "thorough" {
 		small := []rune{'a', 'A', '0', '1', '.', '/', '*', '-', '\'', '\\', '"', ' ', '\n', '(', 'e', 'x', '%', '+'}
@@ -152,6 +210,9 @@ func genC06Lex(r *rand.Rand, n int, tier string) []string {
 	}
 	for _, f := range c06Fragments {
 		out = append(out, encName(f), encName(f+" "), encName(f+"a"), encName(f+"."))
+	}
+	for _, c := range c06Boundaries() {
+		out = append(out, encName("'"+string(c)+"'"), encName("0'"+string(c)), encName("1"+string(c)), encName("mod"+string(c)+"b"), encName("+"+string(c)))
 	}
 	for i := 0; i < n; i++ {
 		out = append(out, encName(genC06Text(r)))
@@ -246,10 +307,10 @@ func c06Query(vm *engine.VM, goal engine.Term, x engine.Term) string {
 // c06.atoms
 // ---------------------------------------------------------------------------------------------
 
-var c06AtomWords = []string{"[]", "{}", "[ ]", "{ }", "[]a", "a[]", "-", "+", "- ", "--", "-->", ":-", "?-", "\\+", "is", "mod", "dynamic", "e", "E", "end_of_file",
+var c06AtomWords = append(append([]string{}, c06ClassNames...), []string{"[]", "{}", "[ ]", "{ }", "[]a", "a[]", "-", "+", "- ", "--", "-->", ":-", "?-", "\\+", "is", "mod", "dynamic", "e", "E", "end_of_file",
 	"hello world", "don't", "a\\b", "a\nb", "\a\b\f\n\r\t\v", "/*", "/**/a", "/* */", "%", "a%", "% a", ".", "..", ".a", "a.b", ". ", "=..", "0", "0a", "a0", "_", "_a", "Aa", "aA",
 	"'", "''", "'a'", "\"", "\"a\"", "`", "``", "\\", "\\\\", " ", "  ", " a", "a ", ",", "|", "||", ";", "!", "!!", ";;", "a;", "(", ")", "()", "a(", "0'a", "0x1", "1.0", "1e5", "€", "a€", "€a", "é", "éa", "Σ", "aΣ",
-	"∀", "∀+", "+∀", "∀a", "\u0085", "a\u0085b", "\u00a0", "\ufffd", "a\ufffdb", "😀", "e\u0301", "\x00", "a\x00b", "\x7f", "$VAR", "$", "#", "&", "@", "^", "~", "?", "<", ">", "=", ":", "*", "/", "//", "/\\", "\\/"}
+	"∀", "∀+", "+∀", "∀a", "\u0085", "a\u0085b", "\u00a0", "\ufffd", "a\ufffdb", "😀", "e\u0301", "\x00", "a\x00b", "\x7f", "$VAR", "$", "#", "&", "@", "^", "~", "?", "<", ">", "=", ":", "*", "/", "//", "/\\", "\\/"}...)
 
 func genC06Atoms(r *rand.Rand, n int, tier string) []string {
 	var out []string
@@ -539,11 +600,11 @@ func runC06Numbers(payload string) string {
 // c06.terms
 // ---------------------------------------------------------------------------------------------
 
-var c06OpNames = []string{"foo", "bar", "baz", "e", "E", "x", "++", "=>", "-", "+", "*", "\\", ":", "$", "=", "mod", "is", "->", "|", "fy", "Q q", "[]", "{}", ",", "'", "\\+", "--", "dynamic", ".", "é", "∀", "€", "e1", "e10x", "E1", "..", ".=.", "b1", "x0", "o7"}
+var c06OpNames = []string{"foo", "bar", "baz", "e", "E", "x", "++", "=>", "-", "+", "*", "\\", ":", "$", "=", "mod", "is", "->", "|", "fy", "Q q", "[]", "{}", ",", "'", "\\+", "--", "dynamic", ".", "é", "∀", "€", "e1", "e10x", "E1", "..", ".=.", "b1", "x0", "o7", "日本", "は", "א", "ʰ", "ب", "λ", "ǅ", "٣", "日x1"}
 var c06OpPris = []int64{1, 2, 199, 200, 201, 400, 500, 699, 700, 701, 999, 1000, 1001, 1105, 1199, 1200}
 var c06OpSpecs = []string{"fx", "fy", "xf", "yf", "xfx", "xfy", "yfx"}
 
-var c06TermAtoms = []string{"a", "b", "foo", "bar", "baz", "e", "E", "x", "[]", "{}", "", "-", "+", "*", "=", ":-", "\\+", "is", "mod", ",", "|", ";", "!", "++", "=>", "--", "\\", ":", "$", "->", "fy", "Q q",
+var c06TermAtoms = []string{"日本", "は", "א", "ʰ", "ب", "λx", "ǅ", "٣", "３x", "Ⅰ", "_日", "x日", "Σx", "a", "b", "foo", "bar", "baz", "e", "E", "x", "[]", "{}", "", "-", "+", "*", "=", ":-", "\\+", "is", "mod", ",", "|", ";", "!", "++", "=>", "--", "\\", ":", "$", "->", "fy", "Q q",
 	"hello world", "don't", "B", "_x", "a\nb", "/*", "%", ".", "'", "\"", "a\"b", "`", "é", "€", "∀", "\u0085", "\x00", "0", "1e5", "0'a", "e1", "dynamic", "$VAR", "a.b", "[", "(", "}", "end_of_file", "\\\\", "1", "-1", "- 1"}
 
 func genC06Term(r *rand.Rand, depth int, names []string, nvars int, canonical bool) engine.Term {
@@ -681,8 +742,56 @@ func c06TermsPairs() []string {
 	return out
 }
 
+// c06TermsClasses: alphanumeric operators (mod, is, user-defined prefix / infix / postfix operators, operators whose
+// own name starts with a caseless letter) next to operands of every first-character class: the blank the writer puts
+// (or not) between a letter-digit operator and its neighbour is decided by the WRITER's classification of first
+// characters, which has to agree with the LEXER's on every class (Ll, Lo, Lm, Lu, Lt, Nd, Nl, Mn, So, Sm, Sc, ...).
+func c06TermsClasses() []string {
+	var out []string
+	atoms := append([]string{"a", "x1", "mod", "neg", "post"}, c06ClassNames...)
+	var all []string
+	for _, a := range atoms {
+		all = append(all, "A"+encName(a))
+	}
+	all = append(all, "V0", "V1", "I1", "I-1", "I0", "F3ff8000000000000", "Fbff8000000000000", "C1:f Ax", "C2:. Aa A%5b%5d", "C1:%7b%7d Aa", "A%5b%5d")
+	core := []string{"Aa", "A" + encName("日本"), "A" + encName("ʰ"), "V0", "I1", "I-1", "F3ff8000000000000"}
+	ops := "op I200 Afy Aneg ; op I200 Ayf Apost ; op I700 Axfx A" + encName("は") + " ; op I200 Afy A" + encName("日") + " ; op I200 Ayf A" + encName("ʰ") +
+		" ; op I400 Ayfx A" + encName("א") + " ; op I200 Axfy A" + encName("λ") + " ; op I700 Axfx A" + encName("ǅ") + " ; op I200 Afy A" + encName("ب")
+	k := 0
+	add := func(t string) {
+		out = append(out, fmt.Sprintf("hdr %s chars ; %s ; term %s", []string{"writeq", "wt"}[k%2], ops, t))
+		k++
+	}
+	infix := []string{"mod", "is", "xor", "は", "א", "λ", "ǅ"}
+	for _, o := range infix {
+		f := "C2:" + encName(o)
+		for _, x := range all {
+			for _, c := range core {
+				add(f + " " + x + " " + c)
+				add(f + " " + c + " " + x)
+			}
+		}
+	}
+	for _, o := range []string{"neg", "日", "ب", "-", "\\+"} {
+		for _, x := range all {
+			add("C1:" + encName(o) + " " + x)
+			add("C2:mod C1:" + encName(o) + " " + x + " Ab")                 // the operand of an unbracketed prefix operator keeps the right-hand context
+			add("C2:" + encName("は") + " C1:" + encName(o) + " " + x + " V1")
+		}
+	}
+	for _, o := range []string{"post", "ʰ"} {
+		for _, x := range all {
+			add("C1:" + encName(o) + " " + x)
+			add("C2:mod Aa C1:" + encName(o) + " " + x)
+			add("C1:neg C1:" + encName(o) + " " + x)
+		}
+	}
+	return out
+}
+
 func genC06Terms(r *rand.Rand, n int, tier string) []string {
 	out := c06TermsPairs()
+	out = append(out, c06TermsClasses()...)
 	for i := 0; i < n; i++ {
 		mode := pick(r, []string{"writeq", "writeq", "writeq", "canonical", "canonical", "wt"})
 		dq := pick(r, []string{"codes", "chars", "atom"})
@@ -872,6 +981,7 @@ var c06SharedNodes = []c06Let{
 	{"eq", "A-"}, {"eq", "A%5b%5d"}, {"eq", "Amod"}, {"eq", "I1"},
 	{"parse", encName(`g("ab","ab",f(a),f(a))`)}, {"parse", encName(`"ab"-"ab"`)}, {"parse", encName(`["ab","ab"|"ab"]`)}, {"parse", encName(`f("","",'')`)}, {"parse", encName(`"a""b\\n"+"a""b\\n"`)},
 	{"parse", encName(`[a,b|T]-[a,b|T]`)}, {"parse", encName(`f(X,Y,X,_,_)`)}, {"parse", encName(`- (1) - (- 1) - (-(1))`)}, {"parse", encName(`{[a|b],"c"}`)},
+	{"eq", "A" + encName("日本")}, {"eq", "A" + encName("ʰ")}, {"eq", "C2:mod A" + encName("א") + " A" + encName("ב")}, {"chars", "A" + encName("日本")},
 	{"univ", "C2:. Af C2:. Aa A%5b%5d"}, {"univ", "C2:. A- C2:. I1 C2:. I2 A%5b%5d"}, {"length", "I2"}, {"eq", "Aa"}, {"eq", "I-1"}, {"eq", "F8000000000000000"}, {"eq", "C2:: C2:: Aa Ab Ac"},
 }
 
@@ -879,6 +989,7 @@ var c06SharedNodes = []c06Let{
 var c06SharedContexts = []string{
 	"C2:g V100 V100", "C2:- V100 V100", "C2:= V100 V100", "C2:. V100 C2:. V100 A%5b%5d", "C2:. V100 V100", "C2:f C1:- V100 V100", "C2:f V100 C1:h V100",
 	"C2:+ C2:* V100 Ab C1:h C1:k V100", "C2:- C1:%7b%7d V100 V100", "C3:g V100 V100 V100", "C2:%2c V100 V100", "C2::- V100 V100", "C2:g C2:. Aa V100 V100",
+	"C2:mod V100 V100", "C2:is V100 C1:\\+ V100",
 	"C2:* C1:- V100 C1:\\+ V100", "C2:^ V100 C2:^ V100 V100", "C1:%7b%7d C2:%2c V100 V100", "C2:g C2:. V100 Ab C2:. Aa C2:. V100 A%5b%5d",
 }
 
@@ -897,6 +1008,7 @@ func c06SharedExhaustive() []string {
 		out = append(out, fmt.Sprintf("hdr %s %s ; let 100 %s %s ; let 101 eq V100 ; term C2:- V100 V101", modes[(k+1)%3], dqs[k%3], n.kind, n.args))
 		out = append(out, fmt.Sprintf("hdr writeq %s ; op I700 Axfx Afoo ; op I200 Afy Abar ; let 100 %s %s ; term C2:foo C1:bar V100 C1:bar V100", dqs[k%3], n.kind, n.args))
 		out = append(out, fmt.Sprintf("hdr writeq %s ; op I200 Axf Apost ; let 100 %s %s ; let 101 eq C1:post V100 ; term C2:- V101 V101", dqs[k%3], n.kind, n.args))
+		out = append(out, fmt.Sprintf("hdr writeq %s ; op I700 Axfx A%s ; op I200 Afy A%s ; let 100 %s %s ; term C2:%s V100 C1:%s V100", dqs[k%3], encName("は"), encName("日"), n.kind, n.args, encName("は"), encName("日")))
 		k++
 	}
 	// '$VAR'(N) with N reached through a binding (numbervars is off under write_canonical and write_term(quoted(true)))
